@@ -152,7 +152,7 @@ class Job:
     def _solver(self, conds, timeout):
         s = z3.Solver()
         s.set("timeout", int(timeout * 1000))
-        s.add(*Pure.axioms)
+        s.add(*Pure.relevant_axioms(conds))
         s.add(*conds)
         return s
 
@@ -202,6 +202,7 @@ class Job:
         if replay is None:
             return {"status": "inconclusive", "detail": "sat but no replay available (abstraction artefact possible)"}
         tried = []
+        static = {k: v for k, v in (inputs or {}).items() if not isinstance(v, z3.ExprRef)}
         for attempt in range(1 + extra_models):
             m = s.model()
             vals = {}
@@ -218,7 +219,17 @@ class Job:
             if not out["ok"]:
                 return {"status": "violated", "replay": {"fn": replay, "inputs": out.get("inputs", vals)},
                         "detail": out.get("detail", "")}
-            # ask for a different model: move one input away from its current value
+            if attempt == 0:
+                # the solver's values may be numerically degenerate (overflow, stub values no real callee
+                # takes): evaluate the same assertion at realistic seeded points of the same obligation
+                for fb in fallback:
+                    fvals = dict(static)
+                    fvals.update(fb)
+                    out = run_replay(replay, fvals)
+                    if not out["ok"]:
+                        return {"status": "violated", "replay": {"fn": replay, "inputs": out.get("inputs", fvals)},
+                                "detail": out.get("detail", "")}
+            # ask for a different model: move one input away from its current value (short budget)
             if not inputs:
                 break
             blk = []
@@ -227,19 +238,10 @@ class Job:
                     blk.append(z3.Or(term > symx.rv(vals[k]) * 2 + 1, term < symx.rv(vals[k]) / 2 - 1))
             if not blk:
                 break
+            s.set("timeout", 3000)
             s.add(self.rng.choice(blk))
             if s.check() != z3.sat:
                 break
-        # the solver's values may be numerically degenerate (overflow, stub values no real callee takes):
-        # evaluate the same assertion at realistic seeded points of the same obligation
-        static = {k: v for k, v in (inputs or {}).items() if not isinstance(v, z3.ExprRef)}
-        for fb in fallback:
-            vals = dict(static)
-            vals.update(fb)
-            out = run_replay(replay, vals)
-            if not out["ok"]:
-                return {"status": "violated", "replay": {"fn": replay, "inputs": out.get("inputs", vals)},
-                        "detail": out.get("detail", "")}
         return {"status": "inconclusive",
                 "detail": "sat in the abstraction but not reproduced on the real code (%d models tried): %s"
                           % (len(tried), tried[0]["outcome"])}
@@ -267,6 +269,12 @@ class Job:
         res.update(extra)
         self.results.append(res)
         return status
+
+    def mark_known(self, oid, finding):
+        for r in self.results:
+            if r["id"] == oid and r["status"] == "violated":
+                r["status"] = "known"
+                r["finding"] = finding
 
     def twin_sat(self, what, conds, timeout=20):
         """vacuity twin: the assumptions/path must be satisfiable (an `assert False` there is violated)"""
@@ -364,7 +372,7 @@ def load_findings():
 def finding_matcher(pid):
     """returns known(res) -> finding text or None: a listed finding suppresses only violations of the
     obligation (call site / relation) it names"""
-    entries = [f for f in load_findings().get("findings", []) if f["property"] == pid]
+    entries = [f for f in load_findings().get("findings", []) if f["property"] == pid and f.get("match", "obligation") == "obligation"]
 
     def known(res):
         for f in entries:
@@ -373,3 +381,12 @@ def finding_matcher(pid):
         return None
 
     return known
+
+
+def characterised_finding(pid, oid):
+    """a finding whose deviation is characterised by the harness itself (match == 'characterised'):
+    returns the entry if /verif/known_findings.json lists one for this obligation"""
+    for f in load_findings().get("findings", []):
+        if f["property"] == pid and f.get("match") == "characterised" and re.fullmatch(f["obligation"], oid):
+            return f
+    return None
